@@ -108,7 +108,8 @@ pub enum Ev
     /// does the scratch system's entity exist after the first / the second collection of the `RcScratch` op
     RcScratch { uid: u32, mid: bool, after: bool },
     /// how many of the `n` reactors of a `ReactorBulk` op still exist after the collection that followed their release
-    ReactorBulk { uid: u32, n: u32, leaked: u32 },
+    /// (`runs`: how often they ran in total; only the variants that watch a despawn run at all)
+    ReactorBulk { uid: u32, n: u32, leaked: u32, runs: u32 },
     /// A `single*` accessor ran: the entity it reported and the value it saw before writing.
     Single { uid: u32, e: u64, old: Option<u8> },
     /// syscall family: callee body, and value returned to the caller.
